@@ -248,6 +248,13 @@ def run_item(item, tier):
                 maxlen = mx if el in ('byte', 'bool') else mx // W
                 if nexpr == 'n':
                     exact = [-mx - 1, -9, -8, -7, -2, -1, 0, 1, 2, 5, maxlen + 1, mx]
+                    # lengths whose byte size wraps around the whole word to something small
+                    elw = {'int': W, 'string': 2 * W, 'byte': 1, 'bool': 1}[el]
+                    for mult in (1, 2):
+                        for d in (1, 2, 3):
+                            n_ = (mult << bits) // elw + d
+                            if maxlen < n_ <= mx and n_ not in exact:
+                                exact.append(n_)
                 else:
                     # the length is the low byte of n: only values whose low byte is small are compared exactly
                     exact = [0, 1, 2, 5, 256, 257, 258, 261, -256, -255, -254, 513, -mx - 1, mx - 254, 1280 + 2]
